@@ -146,6 +146,16 @@ def cmpScale (nm : String) (exp : Option (Int × Int)) (got : Option Nat) : Msgs
 
 def wantWait (w : Int) : Int := if w ≥ 0 then w else -1
 
+/-- the operation programs the global OFM scale: elementwise by sub-operation; pooling: average / reduce-sum without
+    padding, or explicit per-tensor scaling -/
+def usesGlobalScale (op : NpuOp.BlockOp) : Bool :=
+  let padSum : Int := match op.padding with | some p => p.top + p.left + p.bottom + p.right | none => 0
+  match op.kind with
+  | .elementwise => specEwGlobalScale op.subOp
+  | .pool => if op.rescaleKind = 2 then true else if op.rescaleKind = 3 then false
+             else (op.subOp = 1 || op.subOp = 2) && padSum = 0
+  | _ => false
+
 def cmpBlock (arch : Arch) (strict : Bool) (op : NpuOp.BlockOp) (d : Decode.BlockOp) (regs : RegFile)
     (kw dw : Option Nat) (srow : Option Gen.Shram.Row) (unusedTail : Nat) : Msgs :=
   let isEw := op.kind == .elementwise
@@ -210,13 +220,7 @@ def cmpBlock (arch : Arch) (strict : Bool) (op : NpuOp.BlockOp) (d : Decode.Bloc
   let emax := min (min (act.qmax.getD dmax) dmax) (if lut32 then 127 else 32767)
   let actMsgs := chk "activation" ((specActivation act ofm32).elim (-1) Int.ofNat) d.activation ++
     chk "activation.min" emin d.actMin ++ chk "activation.max" emax d.actMax
-  -- global OFM scale: elementwise by sub-operation; pooling: average / reduce-sum without padding, or explicit per-tensor scaling
-  let padSum : Int := match op.padding with | some p => p.top + p.left + p.bottom + p.right | none => 0
-  let gs : Bool := match op.kind with
-    | .elementwise => specEwGlobalScale op.subOp
-    | .pool => if op.rescaleKind = 2 then true else if op.rescaleKind = 3 then false
-               else (op.subOp = 1 || op.subOp = 2) && padSum = 0
-    | _ => false
+  let gs : Bool := usesGlobalScale op
   let precMsgs := chkB "ofm.globalScale" gs (d.ofmPrecision / 256 % 2 = 1) ++
     chk "ofm.rounding" op.rounding (d.ofmPrecision / 16384 % 4 : Nat) ++
     chk "ifm.opToScale" op.oracle.opToScale (d.ifmPrecision / 256 % 4 : Nat)
@@ -299,6 +303,35 @@ def fitsDma (d : NpuOp.DmaOp) (maxAddr : Int) : Msgs :=
   fitsRange "src" d.src maxAddr true ++ fitsRange "dst" d.dst maxAddr true ++ inRange "length" 0 maxAddr d.src.length ++
   inRange "param" 0 65536 (d.channel * 16 + d.mode)
 
+/-! ## operations outside the legal range: a scale no register can hold
+
+`fitsBlock` names the fields of the *given* operation that no register can hold.  For most of them the generator has no
+check: it masks the value into the field (`Props/C06.lean`: `truncation_witness`, `scale_mask_is_residue`).  An operation
+list with such a field is outside the property's quantifier ("legal operation lists"); what can still be said about its
+stream is that it encodes the operation **with the unrepresentable scale reduced modulo 2^32** - `legalise` - and nothing
+else differs.  `truncScales` lists the scale fields concerned, the comparison of the legalised operation is the *residual*. -/
+
+def legaliseScale : Option (Int × Int) → Option (Int × Int)
+  | some (s, sh) => some (s % 4294967296, sh)
+  | none => none
+
+/-- the operation the stream can encode at best: scales reduced to the unsigned 32-bit field -/
+def legalise (op : NpuOp.BlockOp) : NpuOp.BlockOp :=
+  { op with oracle := { op.oracle with ofmScale := legaliseScale op.oracle.ofmScale, opaScale := legaliseScale op.oracle.opaScale } }
+
+def scaleOutside (nm : String) (v : Option (Int × Int)) : Msgs :=
+  match v with
+  | some (s, _) => if 0 ≤ s ∧ s < 4294967296 then [] else [s!"{nm}={s}"]
+  | none => []
+
+/-- scale fields of the given operation outside [0, 2^32).  An elementwise MUL whose IFM is 32 bit wide is marked `:mul32`
+    (the operation Vela builds for a multiplication by an integer constant that *is* a quantised multiplier - SOFTMAX, and the
+    16-bit LEAKY_RELU with a negative alpha, where the constant and hence the scale derived from it are negative). -/
+def truncScales (op : NpuOp.BlockOp) : Msgs :=
+  let mark := if op.kind == .elementwise && op.subOp = 2 && op.ifm.dtype.bits = 32 then ":mul32" else ""
+  ((if usesGlobalScale op then scaleOutside "ofmScale" op.oracle.ofmScale else []) ++
+   (if op.kind == .elementwise && (op.subOp = 0 || op.subOp = 1) then scaleOutside "opaScale" op.oracle.opaScale else [])).map (· ++ mark)
+
 /-! ## alignment rules, checked on the *decoded* registers -/
 
 def aligned (name : String) (v a : Nat) : Msgs := if a ≠ 0 ∧ v % a = 0 then [] else [s!"{name}={v}%{a}"]
@@ -375,9 +408,21 @@ def judge (row : Gen.AccRow) (arch : Arch) (strict : Bool) (ops : List Op) (word
       ⟨"ok", st.ops.length, stopOk, (if parOk then [] else [s!"parallelMode:exp={row.cores}:got={st.ncores}"]) ++ r.1,
        r.2.1, r.2.2.1, r.2.2.2⟩
 
+def legaliseOp : Op → Op
+  | .block b => .block (legalise b)
+  | o => o
+
+/-- out-of-range scale fields of the whole list, tagged with the operation index -/
+def truncAll (ops : List Op) : Msgs :=
+  (ops.zipIdx.map fun (o, i) => match o with | .block b => tag i (truncScales b) | .dma _ => []).flatten
+
 def verdict (row : Gen.AccRow) (arch : Arch) (ops : List Op) (words : List Nat) (strict : Bool := true) : String :=
   let v := judge row arch strict ops words
+  let tr := truncAll ops
+  -- only when a scale is out of range: does the stream encode the legalised list exactly?
+  let res : Msgs := if tr.isEmpty then v.cmp else (judge row arch strict (ops.map legaliseOp) words).cmp
   s!"decode={v.decode} ops={v.nops} stop={if v.stopOk then 1 else 0} | cmp={v.cmp.length} {firstFew v.cmp} | " ++
-  s!"fits={v.fits.length} {firstFew v.fits} | align={v.align.length} {firstFew v.align} | scalebase={v.scaleBase.length} {firstFew v.scaleBase}"
+  s!"fits={v.fits.length} {firstFew v.fits} | align={v.align.length} {firstFew v.align} | scalebase={v.scaleBase.length} {firstFew v.scaleBase}" ++
+  s!" | trunc={tr.length} {firstFew tr} | truncmul32={(tr.filter (·.endsWith ":mul32")).length} | residual={res.length} {firstFew res}"
 
 end VelaVerif.OpCheck
